@@ -23,7 +23,10 @@ if [ $ALL = 1 ]; then
 fi
 echo "{" > "$S/cross.json"
 first=1
-for id in C01 C02 C03 C04 C05 C06 C07 C08 C09 C10 C11 C12 C13 C14 C15 C16 C17 C18 C19 C20; do
+# CROSS_IDS="C03 C07": only these checks (results are merged into an existing cross.json); CROSS_BUILD_ONLY=1: only the build
+IDS="${CROSS_IDS:-C01 C02 C03 C04 C05 C06 C07 C08 C09 C10 C11 C12 C13 C14 C15 C16 C17 C18 C19 C20}"
+if [ -n "${CROSS_BUILD_ONLY:-}" ]; then echo "$D all_build=$ALL (build only)"; exit $((1-ALL)); fi
+for id in $IDS; do
   if [ $ALL = 1 ]; then
     VERIF_DIR="$V" VERIF_OUT="$S/out" VERIF_RACE_BIN="$S/h.race" "$S/h" run $id $TIER > "$S/$id.log" 2>&1; rc=$?
   else
@@ -35,7 +38,13 @@ for id in C01 C02 C03 C04 C05 C06 C07 C08 C09 C10 C11 C12 C13 C14 C15 C16 C17 C1
   if [ $rc != 0 ]; then mkdir -p "$D/cross"; cp "$S/$id.log" "$D/cross/$id.log"; for f in $sigs; do cp "$S/out/replays/$f" "$D/cross/" 2>/dev/null; done; fi
 done
 echo "}" >> "$S/cross.json"
-cp "$S/cross.json" "$D/cross.json"
+if [ -n "${CROSS_IDS:-}" ] && [ -f "$D/cross.json" ]; then
+  python3 -c "
+import json
+a=json.load(open('$D/cross.json')); b=json.load(open('$S/cross.json')); a.update(b); json.dump(a,open('$D/cross.json','w'),indent=1)"
+else
+  cp "$S/cross.json" "$D/cross.json"
+fi
 python3 -c "
 import json,sys
 d=json.load(open('$D/cross.json'))
